@@ -67,8 +67,10 @@ class Headers:
             # and need not be, a chunk is verified against its checkpoint when it is fetched
             await self.repair(start_height=max_checkpointed_height if self.checkpoints else 0)
         else:
-            # try repairing any incomplete write on tip from previous runs (outside of checkpoints, that are ok)
-            await self.repair(start_height=max_checkpointed_height)
+            # try repairing any incomplete write on tip from previous runs (outside of checkpoints, that are ok);
+            # a network without checkpoints has no chunk that is "ok": 999 would leave the first 999 headers (and
+            # any file shorter than 1000 headers) unchecked
+            await self.repair(start_height=max_checkpointed_height if self.checkpoints else 0)
         await self.ensure_checkpointed_size()
         await self.get_all_missing_headers()
 
